@@ -197,6 +197,7 @@ def step (st : St) (toks : List String) : St × String :=
   let bad := (st, "bad-op")
   match toks with
   | ["reset"] => ({}, "ok")
+  | ["alive"] => (st, "ok")
   | "iterh" :: i :: slot :: rest =>
     match i.toNat?, slot.toNat?, pRange rest with
     | some i, some slot, some (r, []) =>
